@@ -49,6 +49,9 @@ def droplet(draw, cls, dim, modes):
     return d
 
 
+TWINS = {"PerturbedDroplet3D": "PerturbedDroplet3DAxisSym", "PerturbedDroplet3DAxisSym": "PerturbedDroplet3D"}
+
+
 @st.composite
 def member(draw, dim, cls, modes, hetero, maxn=8):
     n = draw(st.integers(0, maxn))
@@ -56,8 +59,10 @@ def member(draw, dim, cls, modes, hetero, maxn=8):
     for _ in range(n):
         c, dm, mo = cls, dim, modes
         if hetero:
-            what = draw(st.sampled_from(["class", "modes", "dim", "same", "same"]))
-            if what == "class":
+            what = draw(st.sampled_from(["class", "modes", "dim", "twin", "same", "same"] + (["twin"] * 4 if cls in TWINS else [])))
+            if what == "twin":  # a different class with the same data layout (only pair: the two 3-D perturbed classes)
+                c = TWINS.get(cls, cls)
+            elif what == "class":
                 c = draw(st.sampled_from(CLASSES[dim]))
             elif what == "modes" and cls.startswith("Perturbed"):
                 mo = draw(st.integers(1, 6))
@@ -121,7 +126,7 @@ class C08(Property):
         "Hypothesis builds Emulsion / EmulsionTimeCourse / DropletTrack / DropletTrackList objects from every droplet class (perturbed "
         "classes with 1-8 amplitudes), dims 1-3, widths None/0/positive, extreme finite parameters (5e-324 ... 1.8e308, negative, -0.0), "
         "0-8 members (time courses and track lists also 10-13 members, beyond one decimal digit of the key) incl. empty collections and empty members in the middle, times = ints up to 2^53 / floats / negative / unordered; "
-        "one case in six is heterogeneous (mixed classes, mode counts or dimensions). The object is written with to_file into a "
+        "one case in six is heterogeneous (mixed classes - including the two 3-D perturbed classes that share one data layout -, mode counts or dimensions). The object is written with to_file into a "
         "per-process scratch directory and read with from_file. Oracle: round trip - if writing returns, reading must return the same "
         "lengths, classes, byte-identical records, equal times in order, and library equality; if writing raises the case counts as "
         "'write refused'. Non-trivial = at least one droplet and (>= 2 members/droplets, an empty member, a None width, a perturbed "
@@ -133,7 +138,7 @@ class C08(Property):
     ]
 
     def budget(self, tier):
-        return {"examples": 2400 if tier == "quick" else 80000, "shards": 12 if tier == "quick" else 16}
+        return {"examples": 6000 if tier == "quick" else 80000, "shards": 12 if tier == "quick" else 16}
 
     def strategy(self, tier):
         return specs()
